@@ -6,7 +6,8 @@ value = sign * coef * 10^(exp-16).   sign ∈ {-2 (−inf), -1, 0, +1, +2 (+inf)
 
 Mirrors, function by function: New (round loop, maxShift/ilog10), FromInt, ToInt64, Neg, Abs,
 Equal, Compare, Add/add/align, Sub, Mul (9/7 split), Div (with `div128 a b := a*10^16/b`, the
-*specification* of div128.go — Knuth-D itself is not mirrored), String (REPAIRED: finding 14,
+*specification* of div128.go — the algorithm itself is mirrored in Model/Div128.lean as `div128m`
+/ `divM` and proved equal to it on coefficients, Proofs/Div128.lean), String (REPAIRED: finding 14,
 exponent printed as `int(exp)-1`), FromStr (getSign/getCoef/getExp), Hash.
 uint64 arithmetic is mirrored with explicit `% 2^64` where the Go code could wrap.
 -/
